@@ -25,7 +25,9 @@ def queue_part(ck):
         if j:
             bad.append((line, rec["K"], j))
         v = rec["V"] or ""
-        if not v.startswith("accepted"):
+        if rec.get("U"):
+            rej.append((line, rec["K"], "shared objects of the queue do not match Model/ConcQ.v: " + "; ".join(rec["U"])[:300]))
+        elif not v.startswith("accepted"):
             rej.append((line, rec["K"], v[:300]))
         else:
             # return values of every call
